@@ -1,3 +1,214 @@
 package main
 
-func runC03() {}
+import (
+	"fmt"
+	"time"
+
+	"github.com/rs/zerolog"
+
+	"verif/drv"
+	"verif/oracle/jsonstrict"
+	"verif/seq"
+	"verif/seqx"
+)
+
+func stepAlphabet(depth int) []seqx.Step {
+	k := func(s string) string { return fmt.Sprintf("%s%d", s, depth) }
+	return []seqx.Step{
+		{Op: "With", Fields: []seqx.Field{{M: "Str", Key: k("c"), Val: "v"}}},
+		{Op: "With", Fields: []seqx.Field{{M: "Int", Key: k("i"), Val: depth}, {M: "Dict", Key: k("d"), Sub: []seqx.Field{{M: "Bool", Key: "b", Val: true}}}}},
+		{Op: "Hook", Hooks: []int{depth*10 + 1}},
+		{Op: "Hook", Hooks: []int{depth*10 + 2, depth*10 + 3}},
+		{Op: "HookNone"},
+		{Op: "HookDiscard"},
+		{Op: "HookCtx"},
+		{Op: "Timestamp"},
+		{Op: "Caller"},
+		{Op: "Ctx", CtxID: depth + 1},
+		{Op: "Level", Level: zerolog.InfoLevel},
+		{Op: "Level", Level: zerolog.TraceLevel},
+		{Op: "Output"},
+		{Op: "Sample"},
+		{Op: "UpdateContext", Fields: []seqx.Field{{M: "Str", Key: k("u"), Val: "w"}}},
+		{Op: "Stack"},
+		{Op: "WithEmpty"},
+		{Op: "With", Fields: []seqx.Field{{M: "EmbedObject", Form: "val", Sub: nil}, {M: "Err", Val: fmt.Errorf("ce%d", depth)}}},
+	}
+}
+
+type eventForm struct {
+	entry  seqx.Entry
+	fields []seqx.Field
+	final  seqx.Final
+}
+
+func eventForms(full bool) []eventForm {
+	entries := []seqx.Entry{{Kind: "Info"}, {Kind: "Debug"}, {Kind: "Log"}, {Kind: "WithLevel", Level: zerolog.WarnLevel}, {Kind: "Err"}, {Kind: "ErrNil"}, {Kind: "Error"}, {Kind: "WithLevel", Level: zerolog.Level(-3)}}
+	fieldSets := [][]seqx.Field{nil, {{M: "Str", Key: "f1", Val: "x"}}, {{M: "Int", Key: "f1", Val: 1}, {M: "Dict", Key: "f2", Sub: []seqx.Field{{M: "Str", Key: "in", Val: "y"}}}}}
+	finals := []seqx.Final{msgM, msgEmpty, {Kind: "Msgf", Text: "fm"}, msgFunc, send}
+	var out []eventForm
+	if full {
+		for _, e := range entries {
+			for _, fs := range fieldSets {
+				for _, f := range finals {
+					out = append(out, eventForm{e, fs, f})
+				}
+			}
+		}
+		return out
+	}
+	// reduced: every entry, every field set, every finaliser appears, not the full product
+	for i, e := range entries {
+		out = append(out, eventForm{e, fieldSets[i%3], finals[i%5]})
+		out = append(out, eventForm{e, fieldSets[(i+1)%3], finals[(i+2)%5]})
+	}
+	return out
+}
+
+func runC03() {
+	r := seq.New("C03", tier, "model_checking")
+	r.Rule = "explicit-state search over logger derivation chains: every sequence of <= D steps from {With(fields), Hook(one/two/none/discarding/GetCtx-reading), Timestamp, Caller, Ctx, Level, Output, Sample, UpdateContext, Stack, empty With} is built on the real zerolog and stepped in lock-step with the reference model (reflogger); from every reached logger a set of event forms (entry x fields x finaliser) is emitted and the received token sequence, the per-hook invocation log and the destination are compared with the model; states = distinct (abstract logger state) reached, transitions = derivation steps + events; non-trivial = the chain contains a hook or a context field"
+	r.Assumptions = []string{"derivation depth <= 4 (quick) / 5 (thorough; depth 6 with all but two steps fixed to With(field))", "a hook that runs after a discarding hook may observe the original level or Disabled (the statement leaves it open)", "the value of the caller field is not compared here (C19)"}
+	if tier == "quick" {
+		r.Deadline = time.Now().Add(120 * time.Second)
+	} else {
+		r.Deadline = time.Now().Add(25 * time.Minute)
+	}
+	maxDepth := 4
+	if tier == "thorough" {
+		maxDepth = 5
+	}
+	seq.Sharded(r, drv.Workers(), func(r *seq.Run, shard, n int) {
+		var idx int64
+		states := map[string]bool{}
+		fullForms := eventForms(true)
+		redForms := eventForms(false)
+		var chain []seqx.Step
+		var rec func(depth int)
+		emit := func(forms []eventForm) {
+			for _, ef := range forms {
+				idx++
+				if idx%int64(n) != int64(shard) {
+					continue
+				}
+				p := seqx.Program{Steps: chain, Entry: ef.entry, Fields: ef.fields, Final: ef.final}
+				out := seqx.Run(p)
+				r.Transitions += int64(len(chain) + 1)
+				checkC03(r, p, out)
+				if idx%500009 == 1 {
+					r.Sample(fmt.Sprintf("%s => %s", p, seqx.Render(out.Lines)))
+				}
+			}
+		}
+		rec = func(depth int) {
+			if r.TimeUp() {
+				return
+			}
+			if depth <= 3 {
+				emit(fullForms)
+			} else {
+				emit(redForms)
+			}
+			if depth == maxDepth {
+				return
+			}
+			for _, s := range stepAlphabet(depth) {
+				chain = append(chain, s)
+				rec(depth + 1)
+				chain = chain[:len(chain)-1]
+			}
+		}
+		rec(0)
+		_ = states
+		if tier == "thorough" {
+			// depth 6 with at most two deviations from the default step
+			def := func(d int) seqx.Step {
+				return seqx.Step{Op: "With", Fields: []seqx.Field{{M: "Str", Key: fmt.Sprintf("c%d", d), Val: "v"}}}
+			}
+			L := 6
+			for i := 0; i < L; i++ {
+				for j := i + 1; j < L; j++ {
+					for _, a := range stepAlphabet(i) {
+						for _, b := range stepAlphabet(j) {
+							chain = chain[:0]
+							for d := 0; d < L; d++ {
+								chain = append(chain, def(d))
+							}
+							chain[i], chain[j] = a, b
+							emit(redForms)
+						}
+					}
+				}
+				if r.TimeUp() {
+					break
+				}
+			}
+		}
+	})
+	r.Exit()
+}
+
+func checkC03(r *seq.Run, p seqx.Program, out seqx.Output) {
+	nontrivial := false
+	for _, s := range p.Steps {
+		if s.Op != "Level" && s.Op != "Output" && s.Op != "Sample" && s.Op != "WithEmpty" {
+			nontrivial = true
+		}
+	}
+	ex := out.Expected
+	stateKey := fmt.Sprint(p.Steps)
+	if out.Panic != "" {
+		r.Eval("panic"+out.Panic, true)
+		r.Violation("", "panic", fmt.Sprintf("panic %s in %s", out.Panic, p), p.String())
+		return
+	}
+	got := seqx.Render(out.Lines)
+	r.EvalHash(seq.Hash(stateKey, p.Entry.Kind, fmt.Sprint(p.Entry.Level, len(p.Fields)), p.Final.Kind, p.Final.Text, got), nontrivial)
+	fail := func(key, format string, a ...interface{}) {
+		r.Violation("", key, fmt.Sprintf(format, a...)+fmt.Sprintf("\n  program : %s\n  output  : %q\n  expected: written=%v %s hooks=%v", p, got, ex.Written, seqx.Obj(ex.Fields...), ex.HookCalls), p.String())
+	}
+	if len(out.Lines1) != 0 {
+		fail("wrong-writer", "event went to the wrong destination (%d lines there)", len(out.Lines1))
+		return
+	}
+	passesGate := ex.Written || len(ex.HookCalls) > 0 || gatePasses(p)
+	if !passesGate {
+		if len(out.HookLog.Calls) != 0 || len(out.Lines) != 0 {
+			fail("filtered-not-inert", "event below the level gate: %d writes, hook calls %v", len(out.Lines), out.HookLog.Calls)
+		}
+		return
+	}
+	if !seqx.MatchHookCalls(out.HookLog.Calls, ex.HookCalls) {
+		fail("hook-calls", "hook invocation log %v, expected %v", out.HookLog.Calls, ex.HookCalls)
+		return
+	}
+	if !ex.Written {
+		if len(out.Lines) != 0 {
+			fail("discarded-written", "discarded event was written")
+		}
+		return
+	}
+	if len(out.Lines) != 1 {
+		fail("writes", "%d writes for one event", len(out.Lines))
+		return
+	}
+	root, err := jsonstrict.ParseLine(out.Lines[0])
+	if err != nil {
+		fail("invalid-json", "invalid JSON: %v", err)
+		return
+	}
+	if err := seqx.MatchFields(root, ex.Fields); err != nil {
+		fail("layout/"+firstWords(err.Error()), "layout: %v", err)
+	}
+}
+
+func gatePasses(p seqx.Program) bool {
+	lvl := p.Entry.EffLevel()
+	min := zerolog.TraceLevel
+	for _, s := range p.Steps {
+		if s.Op == "Level" {
+			min = s.Level
+		}
+	}
+	return lvl >= min
+}
